@@ -1050,8 +1050,8 @@ func validTables(repo string, args []string) (string, error) {
 		return "", ferr
 	}
 	var sb strings.Builder
-	sb.WriteString("(* GENERATED by go2coq validtables from ruleguard/ir_loader.go, go_version.go, irconv/irconv.go, engine.go and gogrep/nodetag -- regenerated on every check. *)\n")
-	sb.WriteString("From Coq Require Import List String.\nImport ListNotations.\nLocal Open Scope string_scope.\n\n")
+	sb.WriteString("(* GENERATED by go2coq validtables from ruleguard/ir_loader.go, go_version.go, irconv/irconv.go, engine.go, quasigo/compile.go and gogrep/nodetag -- regenerated on every check. *)\n")
+	sb.WriteString("From Coq Require Import List String Bool.\nImport ListNotations.\nLocal Open Scope string_scope.\n\n")
 	fmt.Fprintf(&sb, "Definition gen_kind_names : list string :=\n  %s.\n", coqStringList(kinds))
 	fmt.Fprintf(&sb, "Definition gen_object_names : list string :=\n  %s.\n", coqStringList(objects))
 	fmt.Fprintf(&sb, "Definition gen_tag_names : list string :=\n  %s.\n", coqStringList(tagNames))
@@ -1154,6 +1154,133 @@ func validTables(repo string, args []string) (string, error) {
 		})
 	}
 	fmt.Fprintf(&sb, "Definition gen_unlocated_error_sites : list string :=\n  %s.\n", coqStringList(sites))
+	// explicit panics on the load path outside irconv: the loader itself, and the bytecode compiler's panics that are not
+	// located compile errors (those are recovered by quasigo.Compile and returned)
+	qc, err := parseGo(l.fset, repo+"/ruleguard/quasigo/compile.go")
+	if err != nil {
+		return "", err
+	}
+	var panics []string
+	for _, file := range []*ast.File{f, utils, qc} {
+		for _, d := range file.Decls {
+			fd, ok := d.(*ast.FuncDecl)
+			if !ok || fd.Body == nil {
+				continue
+			}
+			ast.Inspect(fd.Body, func(n ast.Node) bool {
+				call, ok := n.(*ast.CallExpr)
+				if !ok || l.str(call.Fun) != "panic" || len(call.Args) != 1 {
+					return true
+				}
+				a := l.str(call.Args[0])
+				if strings.HasPrefix(a, "cl.errorf(") || strings.HasPrefix(a, "cl.errorUnsupportedType(") {
+					return true
+				}
+				panics = append(panics, fd.Name.Name+": panic("+a+")")
+				return true
+			})
+		}
+	}
+	fmt.Fprintf(&sb, "Definition gen_loader_panic_sites : list string :=\n  %s.\n", coqStringList(panics))
+	// every located compile error of the bytecode compiler is built from a node that cannot be nil at that point: the
+	// arguments of cl.errorf that are parameters of the enclosing function (they may be passed as nil by a caller)
+	var nodeParams []string
+	for _, d := range qc.Decls {
+		fd, ok := d.(*ast.FuncDecl)
+		if !ok || fd.Body == nil {
+			continue
+		}
+		params := map[string]bool{}
+		for _, fl := range fd.Type.Params.List {
+			t := l.str(fl.Type)
+			if t == "ast.Expr" || t == "ast.Node" || t == "ast.Stmt" {
+				for _, nm := range fl.Names {
+					params[nm.Name] = true
+				}
+			}
+		}
+		ast.Inspect(fd.Body, func(n ast.Node) bool {
+			call, ok := n.(*ast.CallExpr)
+			if !ok || l.str(call.Fun) != "cl.errorf" || len(call.Args) == 0 {
+				return true
+			}
+			if id, ok := call.Args[0].(*ast.Ident); ok && params[id.Name] {
+				nodeParams = append(nodeParams, fd.Name.Name+": "+id.Name)
+			}
+			return true
+		})
+	}
+	fmt.Fprintf(&sb, "Definition gen_quasigo_errorf_interface_params : list string :=\n  %s.\n", coqStringList(nodeParams))
+	// newBinaryExprFilter: the statements, and the condition under which it swaps the operands and calls itself
+	nb := findFunc(f, "irLoader", "newBinaryExprFilter")
+	if nb == nil {
+		return "", fmt.Errorf("newBinaryExprFilter not found")
+	}
+	var guard ast.Expr
+	nrec := 0
+	var stmts []string
+	for _, st := range nb.Body.List {
+		is, ok := st.(*ast.IfStmt)
+		rec := false
+		ast.Inspect(st, func(n ast.Node) bool {
+			if call, ok := n.(*ast.CallExpr); ok && l.str(call.Fun) == "l.newBinaryExprFilter" {
+				rec = true
+				nrec++
+			}
+			return true
+		})
+		if rec {
+			if !ok || is.Init != nil || is.Else != nil || guard != nil {
+				return "", l.errf(st, "newBinaryExprFilter: the recursive call is not inside one plain if statement")
+			}
+			guard = is.Cond
+			stmts = append(stmts, "if GUARD "+l.str(is.Body))
+			continue
+		}
+		stmts = append(stmts, l.str(st))
+	}
+	if guard == nil || nrec != 1 {
+		return "", fmt.Errorf("newBinaryExprFilter: expected exactly one recursive call (found %d)", nrec)
+	}
+	var tr func(e ast.Expr) (string, error)
+	tr = func(e ast.Expr) (string, error) {
+		switch e := e.(type) {
+		case *ast.ParenExpr:
+			return tr(e.X)
+		case *ast.UnaryExpr:
+			if e.Op == token.NOT {
+				x, err := tr(e.X)
+				return "(negb " + x + ")", err
+			}
+		case *ast.BinaryExpr:
+			if e.Op == token.LAND || e.Op == token.LOR {
+				x, err := tr(e.X)
+				if err != nil {
+					return "", err
+				}
+				y, err := tr(e.Y)
+				op := "&&"
+				if e.Op == token.LOR {
+					op = "||"
+				}
+				return "(" + x + " " + op + " " + y + ")", err
+			}
+		case *ast.CallExpr:
+			switch l.str(e) {
+			case "filter.Args[0].IsBasicLit()":
+				return "a0", nil
+			case "filter.Args[1].IsBasicLit()":
+				return "a1", nil
+			}
+		}
+		return "", l.errf(e, "newBinaryExprFilter: swap condition not understood: %s", l.str(e))
+	}
+	g, err := tr(guard)
+	if err != nil {
+		return "", err
+	}
+	fmt.Fprintf(&sb, "Definition gen_swap_guard (a0 a1 : bool) : bool := %s.\n", g)
+	fmt.Fprintf(&sb, "Definition gen_body_newBinaryExprFilter : list string :=\n  %s.\n", coqStringList(stmts))
 	return sb.String(), nil
 }
 
@@ -1172,13 +1299,53 @@ func macroShape(repo string, args []string) (string, error) {
 	var sb strings.Builder
 	sb.WriteString("(* GENERATED by go2coq macroshape from ruleguard/irconv/irconv.go -- regenerated on every check. *)\n")
 	sb.WriteString("From Coq Require Import List String.\nImport ListNotations.\nLocal Open Scope string_scope.\n\n")
-	for _, name := range []string{"expandMacro", "localDefine", "findLocalMacro", "toStringValue", "parseStringArg", "convertFilterExpr"} {
+	for _, name := range []string{"expandMacro", "localDefine", "findLocalMacro", "toStringValue", "parseStringArg", "convertFilterExpr", "convertRuleGroup", "ConvertFile"} {
 		fd := findFunc(f, "converter", name)
 		if fd == nil {
 			return "", fmt.Errorf("converter.%s not found", name)
 		}
 		fmt.Fprintf(&sb, "Definition gen_body_%s : list string :=\n  %s.\n", name, coqStringList(l.bodyStrings(fd)))
 	}
+	// the helper table conv.groupFuncs: every statement of the package that assigns to it, and whether convertRuleGroup empties
+	// it (at statement level) before the loop over the statements of the group
+	var writes []string
+	for _, d := range f.Decls {
+		fd, ok := d.(*ast.FuncDecl)
+		if !ok || fd.Body == nil {
+			continue
+		}
+		ast.Inspect(fd.Body, func(n ast.Node) bool {
+			switch n := n.(type) {
+			case *ast.AssignStmt:
+				for _, lhs := range n.Lhs {
+					if strings.HasPrefix(l.str(lhs), "conv.groupFuncs") {
+						writes = append(writes, fd.Name.Name+": "+l.str(n))
+					}
+				}
+			case *ast.IncDecStmt:
+				if strings.HasPrefix(l.str(n.X), "conv.groupFuncs") {
+					writes = append(writes, fd.Name.Name+": "+l.str(n))
+				}
+			case *ast.UnaryExpr:
+				if n.Op == token.AND && strings.HasPrefix(l.str(n.X), "conv.groupFuncs") && fd.Name.Name != "findLocalMacro" {
+					writes = append(writes, fd.Name.Name+": "+l.str(n))
+				}
+			}
+			return true
+		})
+	}
+	fmt.Fprintf(&sb, "Definition gen_groupFuncs_writes : list string :=\n  %s.\n", coqStringList(writes))
+	crg := findFunc(f, "converter", "convertRuleGroup")
+	resetPerGroup := false
+	for _, st := range crg.Body.List {
+		if l.str(st) == "conv.groupFuncs = conv.groupFuncs[:0]" {
+			resetPerGroup = true
+		}
+		if fs, ok := st.(*ast.RangeStmt); ok && l.str(fs.X) == "decl.Body.List" {
+			break
+		}
+	}
+	fmt.Fprintf(&sb, "Definition gen_reset_per_group : bool := %v.\n", resetPerGroup)
 	impl := findFunc(f, "converter", "convertFilterExprImpl")
 	if impl == nil {
 		return "", fmt.Errorf("convertFilterExprImpl not found")
